@@ -182,6 +182,32 @@ var c01Sources = []string{
 	"{{ true.size }}{{ nil.x }}{{ 1.5.first }}", "{{ -a }}", "{{ a--b }}", "{{ a?b }}", "{{ a? }}", "\x00{{ \x00 }}", "{{ \xff }}",
 }
 
+// VerifC01IncludeCycle: a template that includes itself, directly or through another, ends in an
+// error: it neither recurses until the stack overflows nor loops.
+func VerifC01IncludeCycle() {
+	e := NewEngine()
+	root := nd.TempRoot()
+	var err1 error
+	switch nd.Choice(3) {
+	case 0:
+		_, err1 = e.ParseTemplateAndCache([]byte("x{% include 'self.html' %}"), root+"/self.html", 1)
+	case 1:
+		_, err1 = e.ParseTemplateAndCache([]byte("a{% include 'b.html' %}"), root+"/self.html", 1)
+		_, _ = e.ParseTemplateAndCache([]byte("b{% include 'self.html' %}"), root+"/b.html", 1)
+	case 2:
+		nd.SetFile(root+"/self.html", "{% for i in (1..2) %}{% include 'self.html' %}{% endfor %}", 0)
+	}
+	nd.Assert(err1 == nil, "cyclic-source-parses")
+	tpl, perr := e.ParseTemplateLocation([]byte("[{% include 'self.html' %}]"), root+"/main.html", 1)
+	nd.Assert(perr == nil, "includer-parses")
+	if perr != nil {
+		return
+	}
+	out, err := tpl.RenderString(Bindings{})
+	nd.Assert(err != nil && out == "", "include-cycle-is-an-error")
+	nd.Reach("C01.includecycle")
+}
+
 // VerifC01Sources: malformed and truncated syntax is rejected with an error or rendered; never a panic.
 func VerifC01Sources() {
 	src := c01Sources[nd.Choice(len(c01Sources))]
